@@ -1,3 +1,8 @@
 import GlueVerif.Props.C20
 open GlueVerif.C20
 #print axioms findChunkShape_spec
+#print axioms iterateChunks_partition
+#print axioms iterateChunks_nmax
+#print axioms unbroadcast_roundtrip
+#print axioms unique_spec
+#print axioms viewShape_slice_length
